@@ -62,8 +62,8 @@ func (c08) Generate(c *Ctx) []any {
 	}
 	// consumer level: settings of one output file must not reach the output files of sibling packages that
 	// share its template (full CLI runs; the pipeline harness judges them)
-	for i := 0; i < c.Budget(9, 45); i++ {
-		pin := genPipeFault(c.Rng, "C08", i, []string{"mixed-require-open", "mixed-require-strict", "per-iface-pkgname"}[i%3])
+	for i := 0; i < c.Budget(12, 48); i++ {
+		pin := genPipeFault(c.Rng, "C08", i, []string{"mixed-require-open", "mixed-require-strict", "per-iface-pkgname", "iface-data-file-level"}[i%4])
 		out = append(out, pin)
 	}
 	return out
